@@ -187,10 +187,15 @@ Fixpoint orderedb (d : durable) (l : list obs_event) : bool :=
                         end) t && orderedb d t
   end.
 
+(** Every stored row of the topic's log is associated with the topic (insert and associate are
+    one transaction), so "stored operation of the topic" and "row of a resolved log" coincide. *)
+Definition assoc_complete (d : durable) : bool :=
+  forallb (fun r => negb (N.eqb (r_log r) tlog) || in_assoc d r) (rows d).
+
 Definition check_obs (o : obs) : bool :=
   subset (o_events o) (expected (o_d o)) &&
   (if o_complete o then subset (expected (o_d o)) (o_events o) else true) &&
-  nodupb (o_events o) && orderedb (o_d o) (o_events o).
+  nodupb (o_events o) && orderedb (o_d o) (o_events o) && assoc_complete (o_d o).
 
 (** A fact recorded by the harness in session [fst f] about row [snd f]. *)
 Definition fact := (nat * row)%type.
@@ -228,7 +233,7 @@ Definition check_unacked (os : list obs) (attempted : list fact) : bool :=
                forallb (fun r =>
                           match r_body r with
                           | Body =>
-                              negb (in_assoc (o_d o) r)
+                              negb (N.eqb (r_log r) tlog)
                               || existsb (fun f : fact => Nat.ltb (fst f) i && key_eqb (rkey (snd f)) (rkey r)
                                                           && N.leb (r_seq r) (r_seq (snd f))) attempted
                               || existsb (fun r' => key_eqb (rkey r') (rkey r) && N.leb (r_seq r) (r_seq r')
